@@ -199,6 +199,8 @@ def bnot(a):
 def and_const(a, m):
     w = a.w
     m &= mask(w)
+    if m and (m & (m + 1)) == 0 and m != mask(w):
+        return zext(trunc(a, m.bit_length()), w)  # a low mask is a truncation (one normal form for `x & 0xff` and `x as u8`)
     c, e = aff_parts(a)
     return mk_aff(w, c & m, {at: p & rep_mask(w, at.w, m) for at, p in e.items()})
 
@@ -285,9 +287,11 @@ def trunc(a, w):
         p = _relayout(p, a.w, w, at.w)
         # a ring atom of which the truncation keeps only the low k bits: the same polynomial mod 2^k (truncation is a ring
         # homomorphism), so that a byte taken from a wide word and the same byte computed from the narrow word are one term
-        if p and at.op == "ring" and (p >> ((at.w - 1) * w)) == 0 and len(at.aux) <= RING_EXPAND_LIMIT:
+        if p and at.op == "ring" and at.w > w and p == ident_packed(w, at.w) and len(at.aux) <= RING_EXPAND_LIMIT and not _NO_RINGTRUNC:
+            # (only the plain low part: a slice from the middle stays a slice of the wide atom, which is also what masking
+            # with a constant gives)
             cs = cols(p, w, at.w)
-            k = max(j for j in range(at.w) if cs[j]) + 1
+            k = w
             a2 = mk_ring(k, dict(at.aux))
             if a2.op == "const":
                 for j in range(k):
@@ -376,6 +380,8 @@ def known_bits(t):
 
 _ATOM = {}
 RING_EXPAND_LIMIT = 48
+import os as _os
+_NO_RINGTRUNC = bool(_os.environ.get("VF_NO_RINGTRUNC"))
 
 
 def _atom_reg(a):
